@@ -23,6 +23,10 @@ pub fn families() -> Vec<&'static dyn Family> {
         &wsim::clean::WIRE_CLEAN,
         &wsim::hostile::WIRE_HOSTILE,
         &nsim::smoke::SMOKE,
+        &nsim::e2e::E2E_C03,
+        &nsim::e2e::E2E_C14,
+        &nsim::hostile::HOSTILE_PEER,
+        &nsim::hostile::INVALID_PAYLOADS,
     ]
 }
 
@@ -44,6 +48,19 @@ const R_STUB: &[&str] = &[
     "subscriber/requestor/replier sinks (scripted MockSink modelling FramedWrite<SendStream>)",
     "executor (harness: eager or wake-driven)",
     "QUIC transport (absent)",
+];
+
+const N_REAL: &[&str] = &[
+    "selium client library (builders, Publisher, Subscriber, Requestor, Replier, both KeepAlive wrappers, ClientConnection)",
+    "selium-server (Server::listen, handle_connection, handle_stream, topic map, both routers, quic::server_config)",
+    "selium-protocol (BiStream, MessageCodec), selium-std (codecs, compression), selium-tools certificate generator",
+    "quinn 0.10.2 + quinn-proto (clock seam patched, otherwise verbatim), rustls + ring",
+    "tokio current-thread runtime with paused clock",
+];
+const N_STUB: &[&str] = &[
+    "UDP network (SimNet: in-memory datagram delivery with seeded loss, duplication, delay/reordering, partitions)",
+    "clock (tokio virtual time; quinn's 6 Instant::now() call sites routed to it)",
+    "OS entropy (per-run seeded stream served through getrandom/getentropy/syscall overrides)",
 ];
 
 pub fn plan(property: &str) -> Option<CheckPlan> {
@@ -149,7 +166,25 @@ pub fn plan(property: &str) -> Option<CheckPlan> {
             assumptions: vec!["an allocation request above 256 MiB + 16 x input size counts as unrelated to the input; above 3 GiB it is refused and the resulting abort is attributed by the supervisor"],
             real: vec!["MessageCodec + FramedRead", "decode_message_batch", "StringCodec / BytesCodec / BincodeCodec::decode", "gzip, zlib, zstd, lz4, brotli decompressors of selium-std", "the subscriber's decompress -> unbatch -> decode order (re-stated in the harness; the real Subscriber runs in the N-engine)"],
             stubbed: vec!["byte transport (scripted SimPipe)", "allocator (counting wrapper around the system allocator)"],
-            items: vec![PlanItem { family: &wsim::hostile::WIRE_HOSTILE, quick: 300_000, thorough: 10_000_000 }],
+            items: vec![PlanItem { family: &wsim::hostile::WIRE_HOSTILE, quick: 300_000, thorough: 10_000_000 }, PlanItem { family: &nsim::hostile::HOSTILE_PEER, quick: 300, thorough: 20_000 }],
+        }),
+        "C03" => Some(CheckPlan {
+            property: "C03",
+            level: "exploration",
+            rule: "one library publisher and 1-2 library subscribers (registered first, 1 virtual second settle) per run with a configuration drawn from VERIF_SEED: codec x compression algorithm/level x batching off/on(size, interval) x send pattern (send, feed+flush, feed then finish only, send_all) x virtual gaps x message count relative to the batch size x payload classes; mild network faults; non-trivial = >= 2 messages accepted; distinct = distinct script bodies",
+            assumptions: vec!["runs in which the client reported a lost connection are inconclusive (the property assumes none)", "a subscriber registration has taken effect 1 virtual second after open() returned"],
+            real: N_REAL.to_vec(),
+            stubbed: N_STUB.to_vec(),
+            items: vec![PlanItem { family: &nsim::e2e::E2E_C03, quick: 600, thorough: 40_000 }],
+        }),
+        "C14" => Some(CheckPlan {
+            property: "C14",
+            level: "exploration",
+            rule: "8-24 publisher/subscriber stream pairs per run over one pair of connections, each with its own (codec, algorithm, mode, level incl. every explicit level of the supported range) and 1-5 payloads from the classes empty / 1 byte / incompressible / repetitive / structured text / (thorough) near the frame limit, with and without batching; non-trivial = >= 2 messages on some stream; distinct = distinct script bodies",
+            assumptions: vec!["transforms are exercised as traffic through the real Publisher/Subscriber, server and QUIC stack"],
+            real: N_REAL.to_vec(),
+            stubbed: N_STUB.to_vec(),
+            items: vec![PlanItem { family: &nsim::e2e::E2E_C14, quick: 200, thorough: 6_000 }, PlanItem { family: &nsim::hostile::INVALID_PAYLOADS, quick: 150, thorough: 5_000 }],
         }),
         "SMOKE" => Some(CheckPlan {
             property: "SMOKE",
@@ -165,5 +200,5 @@ pub fn plan(property: &str) -> Option<CheckPlan> {
 }
 
 pub fn properties() -> Vec<&'static str> {
-    vec!["C01", "C02", "C05", "C06", "C08", "C09", "C10", "C11", "C16"]
+    vec!["C01", "C02", "C03", "C05", "C06", "C08", "C09", "C10", "C11", "C14", "C16"]
 }
